@@ -237,3 +237,25 @@ Proof.
            destruct Hfr as [Hfr|Hfr]; [rewrite <- Hfr, E1; exact Hgr|unfold gone in Hfr; congruence].
         -- left. cbn in Hk. rewrite Bool.orb_false_r in Hk. apply beq_eq in Hk. exact Hk.
 Qed.
+
+(* ---------- sequencing and storing ---------- *)
+Lemma run_bind limit {A B} (p : prog A) (f : A -> prog B) : forall w,
+  run limit (bind p f) w =
+  match run limit p w with
+  | (Done a, w') => run limit (f a) w'
+  | (Crashed, w') => (Crashed, w')
+  | (OutOfModel, w') => (OutOfModel, w')
+  end.
+Proof.
+  induction p; intros w; cbn [bind run]; auto.
+  - destruct (do_origin limit r w) as [rep w']. apply H.
+Qed.
+
+Lemma get_entry_aset_same k e s : get_entry (aset k (SEntry e) s) k = Some e.
+Proof. unfold get_entry. rewrite alookup_aset_same. reflexivity. Qed.
+Lemma get_refs_aset_same k l s : get_refs (aset k (SRefs l) s) k = Some l.
+Proof. unfold get_refs. rewrite alookup_aset_same. reflexivity. Qed.
+Lemma get_entry_aset_other k k' v s : beq k k' = false -> get_entry (aset k' v s) k = get_entry s k.
+Proof. intros H; unfold get_entry. rewrite alookup_aset_other by exact H. reflexivity. Qed.
+Lemma get_refs_aset_other k k' v s : beq k k' = false -> get_refs (aset k' v s) k = get_refs s k.
+Proof. intros H; unfold get_refs. rewrite alookup_aset_other by exact H. reflexivity. Qed.
